@@ -39,6 +39,10 @@ func scenC18(r *Run, job *Job) {
 	if t.Chance(1, 3) {
 		r.ReorderNum, r.ReorderDen = 1, 4
 	}
+	if t.Chance(1, 4) {
+		// the restore is descheduled right where it installs the new credentials
+		r.AddHold("credentialsServiceImpl).UpdateCredentials", 1+t.Draw(2), 1+t.Draw(3))
+	}
 	w := r.NewWorld(WorldCfg{TimeoutSec: timeoutSec, InitCaching: true, Env: env}, job.Seed)
 	e := w.NewEngine()
 	e.Bound = 60 * time.Second
@@ -85,11 +89,16 @@ func scenC18(r *Run, job *Job) {
 	if !envCreds {
 		curKey = ""
 	}
+	prevKey := curKey
+	credPrev := map[*Call]string{} // the key in force before the most recent restore request (legitimate while that restore has not released the runtime yet)
+	credHeld := map[*Call]bool{}
+	credSince := map[*Call]int{} // step at which the most recent restore request was made
 	startRestore := func() {
 		rs := &c18Restore{n: len(restores) + 1, hook: hook, key: fmt.Sprintf("AKIARESTORE%d", len(restores)+1)}
 		restores = append(restores, rs)
 		r.NextStep()
 		rs.startStep, rs.startAt = r.Step, r.Now()
+		prevKey = curKey
 		curKey = rs.key
 		r.Logf("operator restore #%d hook=%s key=%s", rs.n, hook, rs.key)
 		r.Go(func() {
@@ -126,6 +135,11 @@ func scenC18(r *Run, job *Job) {
 		}
 		c := rt.Side("cred-"+kind, "GET", credPath, hdr, nil)
 		credCalls = append(credCalls, c)
+		credPrev[c] = prevKey
+		if n := len(restores); n > 0 {
+			credSince[c] = restores[n-1].startStep
+		}
+		credHeld[c] = r.HeldNow() || r.holdEverFired() && c.EndStep <= c.StartStep+1
 		credWant[c] = want
 		if kind == "right" {
 			credWant[c] = "=" + want
@@ -209,10 +223,19 @@ func scenC18(r *Run, job *Job) {
 		el := rs.endAt - rs.startAt
 		inPoll := restorePoll != nil && restorePoll.StartStep < rs.startStep && (!restorePoll.Done || restorePoll.EndStep >= rs.startStep)
 		_ = i
+		if !inPoll && restorePoll != nil && len(r.Holds) > 0 && r.Holds[0].W != nil {
+			h := r.Holds[0]
+			if rs.startStep <= h.AtStep && h.AtStep <= rs.endStep && restorePoll.StartStep >= h.AtStep && restorePoll.StartStep <= h.AtStep+h.Steps {
+				// the restore was descheduled before it looked at the runtime, which entered its poll meanwhile: whether
+				// it found the runtime parked depends on who was scheduled first afterwards - both outcomes are legitimate
+				r.Probe("restore:order-decided-by-the-hold")
+				continue
+			}
+		}
 		if !inPoll {
 			// the runtime was not parked in its restore poll: returns at once
 			r.Probe("restore:not-in-poll")
-			r.Check(rs.endStep == rs.startStep && rs.err == nil, "C18.restore-not-at-once", "restore #%d: the runtime was not in its restore poll, yet the request took until step %d (started %d) err=%v", rs.n, rs.endStep, rs.startStep, rs.err)
+			r.Check((rs.endStep == rs.startStep || r.holdEverFired() && el <= r.MaxHoldTime) && rs.err == nil, "C18.restore-not-at-once", "restore #%d: the runtime was not in its restore poll, yet the request took until step %d (started %d) err=%v", rs.n, rs.endStep, rs.startStep, rs.err)
 			continue
 		}
 		r.Probe("restore:" + mode)
@@ -251,6 +274,22 @@ func scenC18(r *Run, job *Job) {
 		json.Unmarshal(c.Body, &got)
 		r.Check(c.Status == 200, "C18.credentials-refused", "credentials request with the right token answered %d %s", c.Status, summarize(c.Body))
 		exp := strings.TrimPrefix(want, "=")
+		if got.AccessKeyId != exp && got.AccessKeyId == credPrev[c] && credHeld[c] {
+			// the restore was descheduled before installing the new values: still legitimate as long as the runtime
+			// had not been released from its restore poll when the request was made
+			released := false
+			if rt := rtActor(e, 1); rt != nil {
+				for _, x := range rt.Calls {
+					if x.Tag == "rt-restorenext" && x.Done && x.Err == nil && x.EndStep < c.StartStep && x.EndStep >= credSince[c] {
+						released = true
+					}
+				}
+			}
+			if !released {
+				r.Probe("credentials-during-held-restore")
+				continue
+			}
+		}
 		r.Check(got.AccessKeyId == exp, "C18.credentials-stale", "credentials endpoint served key %q, the most recent restore set %q", got.AccessKeyId, exp)
 		if strings.HasPrefix(exp, "AKIARESTORE") {
 			r.Check(got.SecretAccessKey == "secret-"+exp && got.Token == "session-"+exp, "C18.credentials-stale", "credentials endpoint served mixed values %+v for %s", got, exp)
